@@ -316,6 +316,7 @@ def gen_history(rng, idx, modes):
             c["allow_modified"] = rng.random() < 0.25
             c["aood"] = rng.random() < 0.1
             c["deps"] = rng.random() < 0.12
+            c["allow_missing"] = rng.random() < 0.12
             for j in range(rng.choice([1, 1, 2])):
                 kind = rng.choice(["plain", "plain", "plain", "virtual", "timestamp", "directory", "structure", "blocked"])
                 if kind == "blocked" and c["blocked"]:
@@ -344,7 +345,7 @@ def gen_history(rng, idx, modes):
             files = [n for n in avail if node_kind(n, structs) == 0]
             c["outputs"].append("lnk_%s" % name)
             c["contents"] = rng.choice(files)
-        if tool != "symlink" and rng.random() < 0.2:
+        if tool != "symlink" and not c.get("allow_missing") and rng.random() < 0.2:
             c["need"] = "need_%s.txt" % name
             c["inputs"].append(c["need"])
         cmds.append(c)
@@ -428,6 +429,7 @@ def description(h):
         if c["tool"] == "shell": L.append("    args: %s" % yq(script_of(c, structs, links)))
         if c.get("allow_modified"): L.append('    allow-modified-outputs: "true"')
         if c.get("aood"): L.append('    always-out-of-date: "true"')
+        if c.get("allow_missing"): L.append('    allow-missing-inputs: "true"')
         if c.get("deps"): L += ["    deps: dep_%s.d" % c["name"], "    deps-style: makefile"]
         if c["tool"] == "symlink": L.append("    contents: %s" % yq(c["contents"]))
     return "\n".join(L) + "\n"
@@ -569,7 +571,7 @@ def predict(model, h, failset, S, skip=()):
                 ins.append(1 if k == 1 else (2 if os.path.exists(os.path.join(S, i)) else 3))
         kind = failset.get(name, (None, 0))[0]
         x = 1 if kind in LAUNCHABLE else 0
-        a = model.ask("run %d 0 0 %d 0 %s %d" % (TOOLS[c["tool"]], 0 if name in skip else 1, ".".join(str(v) for v in ins) if ins else "-", x))
+        a = model.ask("run %d %d 0 %d 0 %s %d" % (TOOLS[c["tool"]], 1 if c.get("allow_missing") else 0, 0 if name in skip else 1, ".".join(str(v) for v in ins) if ins else "-", x))
         v, ex, fl = a.split(" ")
         cmdval[name] = int(v)
         if ex == "1": executed.add(name)
@@ -674,6 +676,21 @@ def run_history(h, drv, llb, model_path):
                 st = r["status"].get(n)
                 lastfailed[n] = (n in failset and failset[n][0] in LAUNCHABLE) or (st is not None and st != 0)
             prev = dict(A=A, X=X)
+        # a further build with nothing changed runs nothing (except always-out-of-date commands and what they feed)
+        if r["ok"] and not any(f[3] for f in findings if not f[0].startswith("launder")):
+            rn = run_build(S, h, mode, drv, llb)
+            stats["builds"] += 1
+            if rn.get("crash"):
+                findings.append(("build-crash", "the build driver crashed in the null build", rp(dict(raw=rn["raw"])), True, "c10 driver"))
+            else:
+                trace.append(dict(build="null", ok=rn["ok"], executed=sorted(rn["executed"])))
+                allowed = set()
+                for c in h["cmds"]:
+                    if c.get("aood"): allowed |= {c["name"]} | g.downstream(c["name"])
+                extra = rn["executed"] - allowed
+                if not rn["ok"] or extra:
+                    findings.append(("null-build-not-null", "after the repaired build succeeded, a further build with nothing changed %s" % (
+                                     "executes %s" % sorted(extra) if extra else "reports failure"), rp(dict(executed=sorted(rn["executed"]))), True, "c10 oracle: convergence (null build)"))
         # clean build of the repaired description in a fresh directory
         C = S + ".clean"
         shutil.rmtree(C, ignore_errors=True)
@@ -777,8 +794,41 @@ DELEGATE_SKIP = [S_("c0", ["src0.txt"], ["o_c0_0.out"]), S_("c1", ["o_c0_0.out"]
 FAIL_AFTER_OUTPUT = [S_("c0", ["src0.txt"], ["o_c0_0.out"], allow_modified=True), S_("c1", ["o_c0_0.out"], ["o_c1_0.out"]),
                      S_("c2", ["src0.txt"], ["o_c2_0.out", "o_c2_1.out"], allow_modified=True, deps=True), S_("c3", ["o_c2_1.out"], ["o_c3_0.out"], aood=True)]
 
-def corpus_histories():
+def directed_restart_histories():
+    """Always in the quick tier: every build in a NEW process over the same database, cancelling at the first failure.
+    src0 -> c0 -> ... -> c(k-1) -> F (fails) -> D, and an independent command from src1.  The failing build makes the
+    upstream chain (re)run and be recorded before F fails; the repair edits the upstream source (and removes the
+    cause) or only removes the cause; optionally a build with the cause still present in between."""
     hs = []
+    i = 0
+    modes = ["cli-serial", "drv-0-cancel", "cli-j4", "drv-4-cancel"]
+    for k in (1, 2, 3):
+        for pre in (False, True):
+            for repair in ("upstream", "self"):
+                for between in (False, True):
+                    cmds = []
+                    prev = "src0.txt"
+                    for j in range(k):
+                        outs = ["o_c%d_0.out" % j] if j % 2 == 0 else ["d_c%d_0/" % j, "o_c%d_1.out" % j]
+                        cmds.append(S_("c%d" % j, [prev], outs)); prev = outs[-1]
+                    F = "c%d" % k
+                    cmds.append(S_(F, [prev, "src1.txt"], ["o_%s_0.out" % F]))
+                    cmds.append(S_("c%d" % (k + 1), ["o_%s_0.out" % F], ["o_c%d_0.out" % (k + 1)]))
+                    cmds.append(S_("c%d" % (k + 2), ["src1.txt"], ["o_c%d_0.out" % (k + 2)]))
+                    kind = ("exit", 3) if i % 2 == 0 else ("after-exit", 0)
+                    builds = []
+                    if pre: builds.append(dict(fail={}, edit=None))
+                    builds.append(dict(fail={F: kind}, edit="src0.txt" if pre else None))
+                    if between: builds.append(dict(fail={F: kind}, edit=None))
+                    builds.append(dict(fail={}, edit="src0.txt" if repair == "upstream" else None))
+                    h = corpus_history(9400 + i, cmds, {}, modes[i % len(modes)], "restart-%d-%s-%s-%s" % (k, "pre" if pre else "first", repair, "between" if between else "direct"))
+                    h["sources"] = ["src0.txt", "src1.txt"]
+                    h["builds"] = builds
+                    hs.append(h); i += 1
+    return hs
+
+def corpus_histories():
+    hs = directed_restart_histories()
     for mi, mode in enumerate(["drv-0-keepgoing", "drv-4-keepgoing", "cli-serial", "drv-0-cancel"]):
         hs.append(corpus_history(9300 + mi, FAIL_AFTER_OUTPUT, {"c0": ("after-exit", 0), "c2": ("bad-deps", 0)}, mode, "fail-after-output"))
         hs.append(corpus_history(9310 + mi, FAIL_AFTER_OUTPUT, {"c2": ("after-exit", 0)}, mode, "fail-after-output"))
